@@ -477,7 +477,12 @@ fn owned(prof: &Profile, v: &Violation, w: &World) -> bool {
         return true;
     }
     // C18: a dropped duplicate is "dropped without consuming an offset": with deduplication on, offset-assignment clauses count for it
-    prof.owner == "C18" && w.cfg.dedup && key.starts_with("C01:")
+    if prof.owner == "C18" && w.cfg.dedup && key.starts_with("C01:") {
+        return true;
+    }
+    // C19: "every poll returns exactly the payload that was sent and a restart with the same key restores the full ... data":
+    // with encryption on (always wait confirmation in this profile) the slice and restart clauses count for it as well
+    prof.owner == "C19" && w.cfg.encryption && !w.cfg.no_wait && (key.starts_with("C02:") || key.starts_with("C03:") || key.starts_with("C01:"))
 }
 
 pub async fn run(ctx: &Ctx, rep: &mut ShardReport) {
